@@ -10,9 +10,11 @@ Model of sharepoint2text/parsing/extractors/util/sevenzip.py (`SevenZipReader`),
   `S2T.Gen.SevenZip.ids`, the 7zFormat.txt transcription is `specIds`;
 * `lzma` (stdlib, third party) is the parameter `Codec`; `zlib.crc32` is the parameter `crc`.
 
-The model is of the code WITH the three C10 repairs (per-folder pack offsets, empty files are files,
-UTF-16 names); the previous behaviour is kept beside it (`extractAllOld`, `buildFileListOld`,
-`decodeNameOld`) for the counterexample theorems.
+The model is of the code WITH the five C10 repairs (per-folder pack offsets, empty files are files,
+UTF-16 names, SubStreamsInfo digests only for streams whose CRC is not known from the folder, the External
+byte of the attributes property); the previous behaviour is kept beside it (`extractAllOld`,
+`buildFileListOld`, `decodeNameOld`, and the `Variant` flags `digestsKnown := false` /
+`attrExternal := false` = `legacy`) for the counterexample theorems.
 -/
 namespace S2T.SevenZip
 
@@ -292,8 +294,13 @@ def readFolderFileSizes : List Folder → M (List Nat)
     let t ← readFolderFileSizes r
     pure (own ++ t)
 
-/-- `_parse_substreams_info` -/
-def parseSubstreamsInfo (ids : Ids) : M Unit := do
+/-- number of digests SubStreamsInfo stores: one per substream whose CRC is not already known from its folder
+    (`known = false`: the previous code, one per substream) -/
+def digestCount (known : Bool) (folders : List Folder) : Nat :=
+  ((folders.filter fun f => !(known && f.numStreams == 1 && f.crc.isSome)).map (·.numStreams)).sum
+
+/-- `_parse_substreams_info` (`known = false`: the previous digest count) -/
+def parseSubstreamsInfo (ids : Ids) (known : Bool := true) : M Unit := do
   let mut propId ← readU8
   let r ← get
   if propId = ids.kNumUnpackStream then
@@ -311,7 +318,7 @@ def parseSubstreamsInfo (ids : Ids) : M Unit := do
     fileSizes := r.folders.filterMap fun f => f.unpackSizes.getLast?
   modify fun r => { r with fileSizes := fileSizes }
   if propId = ids.kCRC then
-    let totalStreams := (r.folders.map (·.numStreams)).sum
+    let totalStreams := digestCount known r.folders
     let defined ← readBoolVector totalStreams true
     let _ ← readDefinedU32 defined
     propId ← readU8
@@ -326,7 +333,7 @@ def skipSubSizes : List Folder → M Unit
 
 /-- `_skip_substreams_info`.  Its argument is the list object `_parse_unpack_info` has just stored in
     `self._folders`, so the `num_streams` assignments are visible there. -/
-def skipSubstreamsInfo (ids : Ids) : M Unit := do
+def skipSubstreamsInfo (ids : Ids) (known : Bool := true) : M Unit := do
   let mut propId ← readU8
   if propId = ids.kNumUnpackStream then
     let fs ← readNumStreams (← get).folders
@@ -337,14 +344,14 @@ def skipSubstreamsInfo (ids : Ids) : M Unit := do
     skipSubSizes folders
     propId ← readU8
   if propId = ids.kCRC then
-    let totalStreams := (folders.map (·.numStreams)).sum
+    let totalStreams := digestCount known folders
     let defined ← readBoolVector totalStreams true
     let _ ← readDefinedU32 defined
     propId ← readU8
   if propId ≠ ids.kEnd then bad "Expected END in substreams info"
 
 /-- `_parse_streams_info` -/
-def parseStreamsInfo (ids : Ids) : M Unit := do
+def parseStreamsInfo (ids : Ids) (known : Bool := true) : M Unit := do
   let mut propId ← readU8
   if propId = ids.kPackInfo then
     modify fun r => { r with stream := propId :: r.stream }
@@ -355,7 +362,7 @@ def parseStreamsInfo (ids : Ids) : M Unit := do
     let _ ← parseUnpackInfo ids
     propId ← readU8
   if propId = ids.kSubStreamsInfo then
-    parseSubstreamsInfo ids
+    parseSubstreamsInfo ids known
     propId ← readU8
   if propId ≠ ids.kEnd then bad "Expected END in streams info"
 
@@ -416,8 +423,9 @@ def runOn {α} (m : M α) (s : Bytes) : Except Err α :=
   | .ok (a, _) => .ok a
   | .error e => .error e
 
-/-- one property body of `_parse_files_info` (reads from `body`, result only: the caller re-seeks) -/
-def fileProp (ids : Ids) (decode : List Nat → Str) (numFiles : Nat) (acc : FilesAcc) (pid : Nat) (body : Bytes) :
+/-- one property body of `_parse_files_info` (reads from `body`, result only: the caller re-seeks).
+    `ext = false`: the previous code, which did not consume the External byte of the attributes property. -/
+def fileProp (ids : Ids) (decode : List Nat → Str) (ext : Bool) (numFiles : Nat) (acc : FilesAcc) (pid : Nat) (body : Bytes) :
     Except Err FilesAcc :=
   if pid = ids.kEmptyStream then do
     let v ← runOn (readBoolVector numFiles) body
@@ -434,7 +442,11 @@ def fileProp (ids : Ids) (decode : List Nat → Str) (numFiles : Nat) (acc : Fil
         let (ns, _) ← readNames decode numFiles rest
         pure { acc with names := ns }
   else if pid = ids.kWinAttributes then do
-    let vals ← runOn (do let d ← readBoolVector numFiles true; readDefinedU32 d) body
+    let vals ← runOn (do
+      let d ← readBoolVector numFiles true
+      if ext then
+        if (← readU8) ≠ 0 then bad "External attributes not supported"
+      readDefinedU32 d) body
     pure { acc with attributes := setAttrs acc.attributes vals }
   else pure acc
 
@@ -484,7 +496,7 @@ theorem readNumber_len {r a r'} (h : readNumber r = .ok (a, r')) : r'.stream.len
     `end_pos = tell() + size` taken right after the size was read is `body.drop size`
     (a `BytesIO` may be positioned past its end; the next read then fails like a read on `[]`).
     Terminates because every round consumes at least the property id. -/
-def filesProps (ids : Ids) (decode : List Nat → Str) (numFiles : Nat) (acc : FilesAcc) (s : Bytes) :
+def filesProps (ids : Ids) (decode : List Nat → Str) (ext : Bool) (numFiles : Nat) (acc : FilesAcc) (s : Bytes) :
     Except Err (FilesAcc × Bytes) :=
   match hs : s with
   | [] => .error (.bad7z "Unexpected end of file")
@@ -494,9 +506,9 @@ def filesProps (ids : Ids) (decode : List Nat → Str) (numFiles : Nat) (acc : F
       match hn : readNumber { stream := rest } with
       | .error e => .error e
       | .ok (size, r1) =>
-        match fileProp ids decode numFiles acc pid r1.stream with
+        match fileProp ids decode ext numFiles acc pid r1.stream with
         | .error e => .error e
-        | .ok acc' => filesProps ids decode numFiles acc' (r1.stream.drop size)
+        | .ok acc' => filesProps ids decode ext numFiles acc' (r1.stream.drop size)
 termination_by s.length
 decreasing_by
   have := readNumber_len hn
@@ -591,14 +603,14 @@ def zipEntries : List Str → List Bool → List Nat → List RawEntry
   | _, _, _ => []
 
 /-- `_parse_files_info` -/
-def parseFilesInfo (ids : Ids) (decode : List Nat → Str) (fixEmpty : Bool) : M Unit := do
+def parseFilesInfo (ids : Ids) (decode : List Nat → Str) (fixEmpty : Bool) (ext : Bool := true) : M Unit := do
   let numFiles ← readNumber
   let r ← get
   -- `remaining = stream.seek(0, SEEK_END) - position`
   if numFiles > r.stream.length then bad "Declared file count exceeds header size"
   let acc0 : FilesAcc := { emptyStreams := List.replicate numFiles false, emptyFiles := [],
                            names := List.replicate numFiles [], attributes := List.replicate numFiles 0 }
-  match filesProps ids decode numFiles acc0 r.stream with
+  match filesProps ids decode ext numFiles acc0 r.stream with
   | .error e => fun _ => .error e
   | .ok (acc, rest) =>
     let entries := zipEntries acc.names acc.emptyStreams acc.attributes
@@ -789,9 +801,15 @@ def extractAllOld (ids : Ids) (c : Codec) (file : Bytes) (r : R) : Except Err (L
 structure Variant where
   decodeName : List Nat → Str
   fixEmpty : Bool
+  /-- SubStreamsInfo digests are counted for the streams whose CRC is not known from the folder -/
+  digestsKnown : Bool := true
+  /-- the External byte of the attributes property is consumed -/
+  attrExternal : Bool := true
 
 def fixed : Variant := { decodeName := decodeUtf16, fixEmpty := true }
-def previous : Variant := { decodeName := decodeNameOld, fixEmpty := false }
+def previous : Variant := { decodeName := decodeNameOld, fixEmpty := false, digestsKnown := false, attrExternal := false }
+/-- the reader before fix-7z-substream-digest-count and fix-7z-attributes-external-byte (otherwise repaired) -/
+def legacy : Variant := { fixed with digestsKnown := false, attrExternal := false }
 
 /-- archive properties loop of `_parse_main_header` (`while True: id; if END break; size; skip`).
     Structural: every round consumes at least the id byte. -/
@@ -822,18 +840,18 @@ def parseMainHeader (ids : Ids) (v : Variant) : M Unit := do
     | .ok rest => set { r with stream := rest }
     propId ← readU8
   if propId = ids.kAdditionalStreamsInfo then
-    parseStreamsInfo ids
+    parseStreamsInfo ids v.digestsKnown
     propId ← readU8
   if propId = ids.kMainStreamsInfo then
-    parseStreamsInfo ids
+    parseStreamsInfo ids v.digestsKnown
     propId ← readU8
   if propId = ids.kFilesInfo then
-    parseFilesInfo ids v.decodeName v.fixEmpty
+    parseFilesInfo ids v.decodeName v.fixEmpty v.attrExternal
     propId ← readU8
   if propId ≠ ids.kEnd then bad "Expected END"
 
 /-- `_parse_encoded_header` -/
-def parseEncodedHeader (ids : Ids) (c : Codec) (file : Bytes) : M Unit := do
+def parseEncodedHeader (ids : Ids) (c : Codec) (file : Bytes) (known : Bool := true) : M Unit := do
   let packInfo ← parsePackInfo ids
   let unpackInfo ← parseUnpackInfo ids
   match unpackInfo with
@@ -841,7 +859,7 @@ def parseEncodedHeader (ids : Ids) (c : Codec) (file : Bytes) : M Unit := do
   | f0 :: _ =>
     let mut propId ← readU8
     if propId = ids.kSubStreamsInfo then
-      skipSubstreamsInfo ids
+      skipSubstreamsInfo ids known
       propId ← readU8
     if propId ≠ ids.kEnd then bad "Expected END property"
     let (packPos, packSizes) := packInfo.getD (headerOffset, [])
@@ -853,7 +871,7 @@ def parseEncodedHeader (ids : Ids) (c : Codec) (file : Bytes) : M Unit := do
 def parseEndHeader (ids : Ids) (v : Variant) (c : Codec) (file : Bytes) : M Unit := do
   let mut propId ← readU8
   if propId = ids.kEncodedHeader then
-    parseEncodedHeader ids c file
+    parseEncodedHeader ids c file v.digestsKnown
     propId ← readU8
   if propId = ids.kHeader then
     parseMainHeader ids v
